@@ -648,7 +648,7 @@ def tree_sig(c):
 
 def check_walk(ctx, t, rng):
     from icalendar import Calendar
-    inp = {'ical': safe_ical(t)}
+    inp = describe(t)
     ref = ref_preorder(t)
     got = t.walk()
     if len(got) != len(ref) or any(a is not b for a, b in zip(got, ref)):
@@ -674,6 +674,29 @@ def check_walk(ctx, t, rng):
                 ctx.violation('accessor', dict(inp, accessor=which), f'{which} returned {len(g)}, expected {len(want)}')
 
 
+def describe(t, **extra):
+    """replayable description of a live tree: the exact object state (pickle) plus a readable rendering"""
+    import base64
+    d = {'ical': safe_ical(t)}
+    try:
+        d['pickle'] = base64.b64encode(pickle.dumps(t)).decode('ascii')
+    except Exception as ex:
+        d['pickle_error'] = type(ex).__name__
+    d.update(extra)
+    return d
+
+
+def restore(inp):
+    """the tree of a replay file: exact state if recorded, else parsed from the rendering"""
+    import base64
+    from icalendar import Component
+    if inp.get('pickle'):
+        return pickle.loads(base64.b64decode(inp['pickle']))
+    if 'ical' in inp and not inp['ical'].startswith('<to_ical failed'):
+        return Component.from_ical(inp['ical'].encode('utf-8'))
+    return None
+
+
 def safe_ical(t):
     try:
         return t.to_ical().decode('utf-8', 'replace')
@@ -696,7 +719,7 @@ def expect_eq(ctx, kind, a, b, inp, want, cls=None):
 
 
 def check_equality(ctx, t, rng):
-    inp = {'ical': safe_ical(t)}
+    inp = describe(t)
     expect_eq(ctx, 'reflexive', t, t, inp, True)
     for o in NON_COMPONENTS:
         for a, b, d in ((t, o, 'component == x'), (o, t, 'x == component')):
@@ -748,7 +771,7 @@ def check_equality(ctx, t, rng):
 
 def check_copies(ctx, t, pname, reparse):
     from icalendar import Component
-    inp = {'ical': safe_ical(t), 'provider': pname}
+    inp = describe(t, provider=pname)
     try:
         b0 = t.to_ical()
     except Exception as ex:
@@ -898,14 +921,13 @@ def oracle(ctx):
 
 def replay(ctx, data):
     import icalendar
-    from icalendar import Component
     inp = data['input']
     rng = ctx.rng
     if inp.get('provider') == 'pytz':
         icalendar.use_pytz()
     try:
-        if 'ical' in inp and not inp['ical'].startswith('<to_ical failed'):
-            t = Component.from_ical(inp['ical'].encode('utf-8'))
+        t = restore(inp)
+        if t is not None:
             check_walk(ctx, t, rng)
             check_equality(ctx, t, rng)
             check_copies(ctx, t, inp.get('provider', 'zoneinfo'), True)
@@ -917,4 +939,4 @@ def replay(ctx, data):
         print('REPRODUCED', v['kind'], v['detail'], f"class={v['cls']}")
     if not ctx.violations:
         print('not reproduced on the current tree')
-    return 1 if any(v['cls'] is None for v in ctx.violations) else 0
+    return 1 if ctx.violations else 0
